@@ -71,6 +71,53 @@ add('assign-discards-const', 'stmt', 'const int *pc = &cconst; cptr = pc;')
 add('init-incompatible-pointer', 'stmt', 'double *ip = &cobj;')
 add('assign-void-value', 'stmt', 'cobj = cvoidfn();')
 add('assign-to-incomplete-struct-deref', 'stmt', 'struct cinc *pi = 0; *pi = *pi;')
+# every path by which a const qualifier reaches an lvalue x every operator that modifies its operand (6.5.16p2, 6.5.2.4p1, 6.5.3.1p1) and the
+# initialisation that would discard the qualifier (6.5.16.1p1); the qualifier may sit on the object, on an enclosing aggregate, on the pointed-to
+# type, on a typedef'd array type or on a member, and must survive member access, subscripting and array-to-pointer conversion
+QPRE = ('struct qs { int m; int arr[3]; int mm[2][2]; struct cs in; }; struct qc { const int c; int d; }; typedef int qarr[3]; '
+        'union qu { int i; int ua[2]; }; ')
+QPATHS = [
+    ('object', 'const int q = 1;', 'q', 'int'),
+    ('member-of-const-struct', 'const struct qs q = {0};', 'q.m', 'int'),
+    ('member-through-pointer-to-const', 'struct qs qo; const struct qs *q = &qo;', 'q->m', 'int'),
+    ('element-of-const-array', 'const int q[3] = {0};', 'q[1]', 'int'),
+    ('deref-of-const-array', 'const int q[3] = {0};', '*q', 'int'),
+    ('array-member-of-const-struct', 'const struct qs q = {0};', 'q.arr[1]', 'int'),
+    ('array-member-through-pointer-to-const', 'struct qs qo; const struct qs *q = &qo;', 'q->arr[1]', 'int'),
+    ('deref-array-member-of-const-struct', 'const struct qs q = {0};', '*q.arr', 'int'),
+    ('2d-array-member-of-const-struct', 'const struct qs q = {0};', 'q.mm[1][1]', 'int'),
+    ('nested-member-of-const-struct', 'const struct qs q = {0};', 'q.in.m', 'int'),
+    ('nested-array-member-of-const-struct', 'const struct qs q = {0};', 'q.in.arr[1]', 'char'),
+    ('const-typedef-array', 'const qarr q = {0};', 'q[0]', 'int'),
+    ('const-typedef-array-2d', 'const qarr q[2] = {{0}};', 'q[1][0]', 'int'),
+    ('pointer-to-const', 'const int *q = &cobj;', '*q', 'int'),
+    ('pointer-to-const-subscript', 'const int *q = carr;', 'q[2]', 'int'),
+    ('pointer-to-const-array', 'const int (*q)[4] = &carr;', '(*q)[0]', 'int'),
+    ('const-member', 'struct qc q = {1, 2};', 'q.c', 'int'),
+    ('const-member-through-pointer', 'struct qc qo = {1, 2}; struct qc *q = &qo;', 'q->c', 'int'),
+    ('const-pointer', 'int *const q = &cobj;', 'q', 'int *'),
+    ('member-of-const-union', 'const union qu q = {0};', 'q.i', 'int'),
+    ('array-member-of-const-union', 'const union qu q = {0};', 'q.ua[1]', 'int'),
+    ('const-compound-literal', 'int q;', '(const int){1}', 'int'),
+    ('member-of-const-compound-literal', 'int q;', '((const struct qs){0}).arr[0]', 'int'),
+    ('element-of-const-parameter-array', 'void qf(const int q[]);', '((const int *)carr)[0]', 'int'),
+]
+QOPS = [('assign', '%s = 1;'), ('add-assign', '%s += 1;'), ('shift-assign', '%s <<= 1;'), ('post-increment', '%s++;'), ('pre-increment', '++%s;'),
+        ('post-decrement', '%s--;'), ('pre-decrement', '--%s;')]
+for qn, qd, ql, qt in QPATHS:
+    for on, ot in QOPS:
+        if qt == 'int *' and on == 'shift-assign':
+            continue
+        add('const-via-%s/%s' % (qn, on), 'stmt', QPRE + qd + ' ' + ot % ql)
+    if qt != 'int *':
+        add('const-via-%s/address-discards-qualifier' % qn, 'stmt', QPRE + qd + ' %s *z = &%s;' % (qt, ql))
+for qn, qd, ql, qt in (('array-member-of-const-struct', 'const struct qs q = {0};', 'q.arr', 'int'), ('array-member-through-pointer-to-const', 'struct qs qo; const struct qs *q = &qo;', 'q->arr', 'int'),
+                       ('const-typedef-array', 'const qarr q = {0};', 'q', 'int'), ('row-of-2d-array-member', 'const struct qs q = {0};', 'q.mm[1]', 'int'),
+                       ('array-member-of-const-union', 'const union qu q = {0};', 'q.ua', 'int')):
+    add('const-via-%s/decay-discards-qualifier' % qn, 'stmt', QPRE + qd + ' %s *z = %s;' % (qt, ql))
+    add('const-via-%s/decay-argument-discards-qualifier' % qn, 'stmt', QPRE + qd + ' void qg(%s *); qg(%s);' % (qt, ql))
+add('assign-struct-with-const-member', 'stmt', QPRE + 'struct qc q1 = {1, 2}, q2 = {3, 4}; q1 = q2;')
+add('assign-struct-with-nested-const-member', 'stmt', 'struct qn { struct { const int c; } in; int d; } q1 = {{1}, 2}, q2 = {{3}, 4}; q1 = q2;')
 # --- operand types
 add('modulo-float', 'expr', '1.5 % 2')
 add('bitnot-float', 'expr', '~1.5')
